@@ -83,6 +83,12 @@ def generate(tier, rng):
         full = keep
     for (o, l, v, ansi, ln) in full:
         yield {"outcome": OUTCOMES[o], "listeners": LISTENERS[l], "verbosity": v, "ansi": ansi, "tokens": LINES[ln]}
+    # ---- the same table on the DEFAULT application configuration (its own pre-handle listener - the version
+    # option - runs after the user's listeners of positive priority and must not undo what they decided)
+    for o in range(len(OUTCOMES)):
+        for l in range(len(LISTENERS)):
+            yield {"outcome": OUTCOMES[o], "listeners": LISTENERS[l], "verbosity": 0, "ansi": False, "tokens": LINES[0],
+                   "default_cfg": True}
     # ---- real text streams with an encoding of their own (UTF-8, ASCII, latin-1; the two streams of an I/O need not
     # agree): the report of every exception must still be printed and the status returned (repaired D36)
     for o, out in enumerate(OUTCOMES):
@@ -104,9 +110,13 @@ def _app(case, io):
     from clikit.console_application import ConsoleApplication
     from clikit.formatter.default_style_set import DefaultStyleSet
     from clikit.resolver.default_resolver import DefaultResolver
-    cfg = ApplicationConfig("app", "1.0")
-    cfg.set_command_resolver(DefaultResolver())
-    cfg.set_style_set(DefaultStyleSet())
+    if case.get("default_cfg"):
+        from clikit.config.default_application_config import DefaultApplicationConfig
+        cfg = DefaultApplicationConfig("app", "1.0")
+    else:
+        cfg = ApplicationConfig("app", "1.0")
+        cfg.set_command_resolver(DefaultResolver())
+        cfg.set_style_set(DefaultStyleSet())
     cfg.set_catch_exceptions(True)
     cfg.set_terminate_after_run(False)
     cfg.set_io_factory(lambda app, args, i, o, e: io)
